@@ -134,7 +134,54 @@ impl Ord for Object {
     }
 }
 
+/// Compare an integer with a float exactly (not through a rounded double);
+/// a NaN sorts after every number
+fn cmp_int_float(i: i64, f: f64) -> Ordering {
+    if f.is_nan() || f >= 9223372036854775808.0 {
+        return Ordering::Less;
+    }
+    if f < -9223372036854775808.0 {
+        return Ordering::Greater;
+    }
+    // the integral part of f is within the i64 range here
+    let t = f.trunc();
+    match i.cmp(&(t as i64)) {
+        Ordering::Equal => 0.0.partial_cmp(&(f - t)).unwrap_or(Ordering::Equal),
+        ord => ord,
+    }
+}
+
 impl Object {
+    /// The total order used by sort(). Values of one comparable kind are
+    /// ordered as by '<' (two NaNs are equal and follow every other number);
+    /// values of different kinds are grouped by kind.
+    pub fn total_order(&self, other: &Self) -> Ordering {
+        fn rank(obj: &Object) -> u8 {
+            match obj {
+                Object::Null => 0,
+                Object::Bool(_) => 1,
+                Object::Byte(_) => 2,
+                Object::Integer(_) | Object::Float(_) => 3,
+                Object::Char(_) => 4,
+                Object::Str(_) => 5,
+                _ => 6,
+            }
+        }
+        match (self, other) {
+            (Object::Integer(a), Object::Integer(b)) => a.cmp(b),
+            (Object::Float(a), Object::Float(b)) => a
+                .partial_cmp(b)
+                .unwrap_or_else(|| a.is_nan().cmp(&b.is_nan())),
+            (Object::Integer(a), Object::Float(b)) => cmp_int_float(*a, *b),
+            (Object::Float(a), Object::Integer(b)) => cmp_int_float(*b, *a).reverse(),
+            (Object::Str(a), Object::Str(b)) => a.cmp(b),
+            (Object::Char(a), Object::Char(b)) => a.cmp(b),
+            (Object::Byte(a), Object::Byte(b)) => a.cmp(b),
+            (Object::Bool(a), Object::Bool(b)) => a.cmp(b),
+            _ => rank(self).cmp(&rank(other)),
+        }
+    }
+
     pub fn is_null(&self) -> bool {
         matches!(self, Object::Null)
     }
